@@ -26,6 +26,7 @@ inductive RegKind
   | classAttrWrite      -- `cls.x = …` / `setattr(cls, x, …)` after definition
   | inPlaceClassAttr    -- in-place mutation of a list/dict read from the class without copying
   | inPlaceCacheEntry   -- in-place mutation of an object handed out by a cache (the entry itself changes)
+  | sharedReturnMutated -- a function returns a module- or class-level mutable object itself and a caller mutates it
   | earlyBoundClassAttr -- an attribute written onto classes after definition is read from another class once
                         -- and captured by a generated closure (frozen at generation time)
   deriving DecidableEq, Repr, Inhabited
@@ -42,13 +43,15 @@ structure RegistryRec where
 /-- a row is safe when the state cannot carry information from one class to another -/
 def RegistryRec.safe (r : RegistryRec) : Bool :=
   (r.key != .className) && (r.key != .otherClass) && (r.key != .unknown) && (r.key != .partialArgs) &&
-  (r.kind != .inPlaceClassAttr) && (r.kind != .inPlaceCacheEntry) && (r.kind != .earlyBoundClassAttr)
+  (r.kind != .inPlaceClassAttr) && (r.kind != .inPlaceCacheEntry) && (r.kind != .earlyBoundClassAttr) &&
+  (r.kind != .sharedReturnMutated)
 
 /-- stable finding key of an unsafe row (same strings as in known_findings.json) -/
 def RegistryRec.findingKey (r : RegistryRec) : String :=
   if r.kind == .inPlaceClassAttr then "mutates-" ++ r.name ++ ":" ++ r.site
   else if r.kind == .inPlaceCacheEntry then "mutates-cache-entry:" ++ r.name ++ ":" ++ r.site
   else if r.kind == .earlyBoundClassAttr then "early-bound:" ++ r.name ++ ":" ++ r.site
+  else if r.kind == .sharedReturnMutated then "mutates-shared-return:" ++ r.name ++ ":" ++ r.site
   else match r.key with
     | .partialArgs => "key-drops-argument:" ++ r.name
     | .className => "name-keyed:" ++ r.name
